@@ -14,7 +14,9 @@ LEVEL = "exploration"
 RULE = ("cases = (function family, parameter tuple, memo-usage variant). Small tuples are enumerated exhaustively "
         "(all of 0..N-1 compared with a brute-force set); large random tuples (q or first_n >= 100 included, to reach "
         "the explicit-stack counter) compare the count with an independent EGF count and 300 random indices for "
-        "legality and pairwise distinctness. non-trivial = N >= 2; distinct = distinct (family, parameters, variant)")
+        "legality and pairwise distinctness; closed-form families (combinations without replacement, mixed radix, "
+        "n**l, permutation prefixes) at sizes with counts beyond 2**53: exact independent count, then random, "
+        "neighbouring and power-of-two indices must unrank to legal, distinct arrangements. non-trivial = N >= 2; distinct = distinct (family, parameters, variant)")
 ASSUMPTIONS = ["brute-force generators (itertools) define 'all arrangements of its kind'"]
 EXHAUSTIVE = {"quick": True, "thorough": True}
 MINIMUMS = {"quick": {"indices_checked": 50000, "distinct_nontrivial": 400},
